@@ -12,6 +12,7 @@ VERIF_NO_CACHE=1 forces regeneration.
 import fcntl
 import hashlib
 import os
+import re
 import subprocess
 import sys
 import time
@@ -59,7 +60,7 @@ def _write_if_changed(path, content):
         f.write(content)
 
 
-def ensure(release=False, log=print, std=False):
+def ensure(release=False, log=print, std=False, macros=False):
     """returns dict of artefact paths; raises BuildError if /repo does not build"""
     os.makedirs(WORK, exist_ok=True)
     lock = open(os.path.join(WORK, '.lock'), 'w')
@@ -74,6 +75,7 @@ def ensure(release=False, log=print, std=False):
             'vreplay_release': os.path.join(WORK, 'tgt-stable', 'release', 'vreplay'),
             'mir_micro_std': os.path.join(WORK, 'mir_micro_std.txt'),
             'vreplay_std': os.path.join(WORK, 'tgt-stable-std', 'debug', 'vreplay'),
+            'mir_macros': os.path.join(WORK, 'mir_macros.txt'),
             'key': key,
             'timings': {},
         }
@@ -132,6 +134,22 @@ def ensure(release=False, log=print, std=False):
             paths['timings']['vreplay_std_s'] = _run(['cargo', 'build', '--offline', '--bin', 'vreplay', '--features', 'stdw'], vdev, None, 'build of the std-writer replay binary', target='tgt-stable-std')
             with open(stamp + '.std', 'w') as f:
                 f.write(key)
+        if macros and not (os.path.exists(paths['mir_macros']) and os.path.exists(stamp + '.macros') and open(stamp + '.macros').read() == key):
+            # MIR of the proc-macro crate itself (host crate, std): Command::try_from / paths, Tree::insert / insert_at
+            paths['timings']['mir_macros_s'] = _run(['cargo', '+nightly', 'rustc', '--offline', '--lib', '--', '-Zunpretty=mir', '-C', 'debug-assertions=off',
+                                                     '-C', 'overflow-checks=on', '--cfg', 'verif_key="%s"' % key[:16], '-A', 'warnings'],
+                                                    os.path.join(REPO, 'microscpi-macros'), paths['mir_macros'] + '.raw', 'MIR dump of microscpi-macros')
+            txt = open(paths['mir_macros'] + '.raw').read()
+            if len(txt) < 1000:
+                raise BuildError('mir_macros: empty MIR dump')
+            # the host crate prints std paths in full; the engine's models are keyed on the trimmed names a no_std crate prints
+            txt = re.sub(r'\bstd::(ops|default|str|slice|iter|cmp|clone|convert|option|result)::(?=[A-Z])', '', txt)
+            with open(paths['mir_macros'] + '.tmp', 'w') as f:
+                f.write(txt)
+            os.replace(paths['mir_macros'] + '.tmp', paths['mir_macros'])
+            os.remove(paths['mir_macros'] + '.raw')
+            with open(stamp + '.macros', 'w') as f:
+                f.write(key)
         if release and not (os.path.exists(paths['vreplay_release']) and os.path.exists(stamp + '.release') and open(stamp + '.release').read() == key):
             vdev = os.path.join(WORK, 'vdev')
             paths['timings']['vreplay_release_s'] = _run(['cargo', 'build', '--offline', '--release', '--bin', 'vreplay'], vdev, None, 'release build of vreplay')
@@ -157,7 +175,7 @@ def _run(cmd, cwd, out=None, what='', target=None):
 
 if __name__ == '__main__':
     try:
-        p = ensure(release='--release' in sys.argv, std='--std' in sys.argv)
+        p = ensure(release='--release' in sys.argv, std='--std' in sys.argv, macros='--macros' in sys.argv)
         print(p)
     except BuildError as e:
         print('BUILD FAILED:', e)
